@@ -36,8 +36,8 @@ CHECKS.update({
    note="Trusted: Coq kernel, hand model of the 8 rule modules tied by trace correspondence, extraction, harness. Termination and seat count are _partial (oracle + correspondence, CPU budget for rational Meek).",
    technique="Coq Hoare-logic proof over a hand model + differential correspondence + oracle", ref="DESIGN.md §6 C01"),
  'C02': dict(
-   text="WHOLE-RUN Coq theorem for wigm, wigm-prf, wigm-prf-batch and scotland under Fixed / integer / Guarded(guard 0), every well-formed profile, every fuel, axiom-free: in every state a count reaches without crashing and in every snapshot it has recorded, tallies + non-transferable never exceed the ballots cast and no tally is negative (Hoare-logic proof over the rule command trees of the invariant 'tally = value of the ballots standing with the candidate', Proofs/Conserve.v + ConserveCount.v: ballot loop, surplus transfer with both truncations, exclusions, sure-loser batches). Per micro-operation for all integer-carrier arithmetics: a transferred ballot is credited exactly once at unchanged weight; re-weighted ballots are worth at most the surplus and each loses < 2 units; a Meek/Warren distribution conserves votes exactly. cfer, mpls, Meek family, QPQ, rational, and the < 2 ulp loss bound per action: values-scope correspondence + conservation oracle.",
-   note="Whole-run for 4 of 6 Gregory rule variants; the others _partial (oracle + correspondence). The profile hypothesis wf_profile (distinct ids, non-negative multipliers, rankings name non-withdrawn candidates) is what the reader model proves of accepted files (C16) but the two models are not yet linked inside Coq.",
+   text="WHOLE-RUN Coq theorem for all Gregory-family rules (wigm, wigm-prf, wigm-prf-batch, scotland, cfer, cfer-batch, mpls) under Fixed / integer / Guarded(guard 0), every well-formed profile, every fuel, axiom-free: in every state a count reaches without crashing and in every snapshot it has recorded, tallies + non-transferable never exceed the ballots cast and no tally is negative (Hoare-logic proof over the rule command trees of the invariant 'tally = value of the ballots standing with the candidate', Proofs/Conserve.v + ConserveCount.v: ballot loop, surplus transfer with both truncations, exclusions, sure-loser batches chosen in one statement group and transferred in another, CfER's transfer of every pending surplus in one round, Minneapolis' elect-and-transfer). Per micro-operation for all integer-carrier arithmetics: a transferred ballot is credited exactly once at unchanged weight; re-weighted ballots are worth at most the surplus and each loses < 2 units; a Meek/Warren distribution conserves votes exactly. Meek family, QPQ, rational arithmetic, Guarded with guard>0, and the < 2 ulp loss bound per action: values-scope correspondence + conservation oracle.",
+   note="Whole-run for the Gregory family; Meek/QPQ _partial (per-distribution theorem + oracle + correspondence). The profile hypothesis wf_profile (distinct ids, non-negative multipliers, rankings name non-withdrawn candidates) is what the reader model proves of accepted files (C16) but the two models are not yet linked inside Coq.",
    technique="Coq whole-run Hoare proof over a hand model + per-operation theorems + differential correspondence + oracle", ref="DESIGN.md §6 C02"),
  'C03': dict(
    text="The Coq model of each statutory rule is the published procedure written as a command tree over the proved decimal arithmetic; the ENTIRE stage-by-stage trace of the implementation (actions, messages, quota, every tally to the last digit, every ballot weight) must equal it on every generated election; clause theorems (quota A.1/46, transfer values B.3+D.4/48(3), lowest candidate, tie-break) are proved for the statutory parameters; wigm(fixed,4) vs wigm-prf histories are compared directly.",
@@ -52,8 +52,8 @@ CHECKS.update({
    note="_partial: oracle + correspondence; the refutation is a Coq evaluation of the model on the witness.",
    technique="Coq refutation by evaluation + exhaustive-coalition oracle + differential correspondence", ref="DESIGN.md §6 C05"),
  'C06': dict(
-   text="WHOLE-RUN Coq theorem (wigm, wigm-prf, wigm-prf-batch, scotland; Fixed / integer / Guarded guard 0; axiom-free): in every state reached without crashing every candidate's tally IS the sum of the values of the ballots standing with it (except elected candidates whose surplus has been transferred, who hold no ballot), weights are non-negative, a transfer-pending candidate holds at least the quota. Per micro-operation: transfer value = the prescribed truncated quotient (two truncations; Scottish one), between 0 and the old value, never rounded up, loses < 2 units; transfer() leaves a ballot with the first continuing candidate of its ranking at unchanged weight and credits exactly its value. Every ballot's index and raw weight at every action is compared with the model (ballots scope) and checked by the P1/P3/P4 oracle, which also requires every ballot of a transferring candidate to leave at the prescribed value (a zero surplus included).",
-   note="Whole-run for 4 of 6 Gregory rule variants; cfer and mpls _partial (oracle + ballot-level correspondence).",
+   text="WHOLE-RUN Coq theorem (wigm, wigm-prf, wigm-prf-batch, scotland, cfer, cfer-batch, mpls; Fixed / integer / Guarded guard 0; axiom-free): in every state reached without crashing every candidate's tally IS the sum of the values of the ballots standing with it (except elected candidates whose surplus has been transferred, who hold no ballot), weights are non-negative, a transfer-pending candidate holds at least the quota. Per micro-operation: transfer value = the prescribed truncated quotient (two truncations; Scottish one), between 0 and the old value, never rounded up, loses < 2 units; transfer() leaves a ballot with the first continuing candidate of its ranking at unchanged weight and credits exactly its value. Every ballot's index and raw weight at every action is compared with the model (ballots scope) and checked by the P1/P3/P4 oracle, which also requires every ballot of a transferring candidate to leave at the prescribed value (a zero surplus included).",
+   note="Whole-run for every Gregory-family rule under non-exact integer-carrier arithmetic; rational and Guarded guard>0: oracle + ballot-level correspondence.",
    technique="Coq whole-run Hoare proof + per-operation theorems + ballot-level differential correspondence + oracle", ref="DESIGN.md §6 C06"),
  'C07': dict(
    text="Coq theorems per micro-operation: candidates offered for single exclusion are exactly the hopefuls at the minimum tally; breakTie picks among the tied, silently for one, else logs exactly one tie action naming set and choice; py_sort returns a permutation for any (even non-transitive) comparison; the Meek/Warren defeat step never offers an empty list to breakTie (Fixed, Guarded, Rational; after fix F11). Batches, largest-surplus-first, Scottish prior stage, tie-order independence: oracle (incl. re-running under a permuted tie order) + values-scope correspondence.",
